@@ -262,20 +262,23 @@ requested and handlers are left to run, the server reaches — by its own steps 
 `weight s` of them, without any client having to go away — a state where the serve future has
 resolved; by `C13_resolve_only_when_all_closed` every accepted call is complete there. -/
 theorem C13_shutdown_completes {b a : Bool} {s : State} (h : Reachable true b a s)
-    (hreq : ShutdownRequested s) (hfree : s.freeRun = true) :
+    (hreq : ShutdownRequested s) (hfree : s.freeRun = true) (hdone : RequestsDone s) :
     ∃ ls s', (∀ l ∈ ls, l.internal = true) ∧ run s ls = some s' ∧ s'.resolved = true
       ∧ ls.length ≤ weight s := by
-  refine drain (fun s => s.cfgGraceful = true ∧ ShutdownRequested s ∧ s.freeRun = true) ?_ ?_
-    (weight s) s (Nat.le_refl _) (good_reachable h) ⟨(reachable_cfg h).1, hreq, hfree⟩
+  refine drain (fun s => s.cfgGraceful = true ∧ ShutdownRequested s ∧ s.freeRun = true
+      ∧ RequestsDone s) ?_ ?_
+    (weight s) s (Nat.le_refl _) (good_reachable h) ⟨(reachable_cfg h).1, hreq, hfree, hdone⟩
   · intro s l s' _ hp hi hs
     have hm := step_mono hs
-    refine ⟨(step_cfg hs).1.trans hp.1, ?_, hm.2.2.2 hp.2.2⟩
+    refine ⟨(step_cfg hs).1.trans hp.1, ?_, hm.2.2.2 hp.2.2.1, requestsDone_step hp.2.2.2 hi hs⟩
     rcases hp.2.1 with hx | hx | hx
     · exact Or.inl (hm.1 hx)
     · exact Or.inr (Or.inl (hm.2.1 hx))
     · exact Or.inr (Or.inr (hm.2.2.1 hx))
   · intro s hg hp hr
-    exact progress hg hp.1 hp.2.1 (fun _ _ _ _ _ _ _ _ => Or.inr hp.2.2) hr
+    exact progress hg hp.1 hp.2.1
+      (fun cn hcn _ k hk _ hcan _ =>
+        ⟨Or.inr hp.2.2.1, reqReady_of_reqLeft (hp.2.2.2 cn hcn k hk hcan)⟩) hr
 
 /-- (a) end to end, for one call: take ANY reachable state in which shutdown has been requested —
 so the signal may have fired before the call's response headers, mid-stream or as it completes —
@@ -284,12 +287,13 @@ run, the server by its own steps reaches a state where the serve future has reso
 (same slot, same true outcome) has been received by its caller completely. -/
 theorem C13_accepted_call_runs_to_completion {b a : Bool} {s : State} {c j : Nat} {cn : Conn}
     {k : Call} (h : Reachable true b a s) (hreq : ShutdownRequested s) (hfree : s.freeRun = true)
+    (hdone : RequestsDone s)
     (hc : s.conns[c]? = some cn) (hk : cn.calls[j]? = some k)
     (hst : k.started = true) (hcan : k.cancelled = false) (hpg : cn.peerGone = false) :
     ∃ ls s' cn' k', (∀ l ∈ ls, l.internal = true) ∧ run s ls = some s' ∧ s'.resolved = true
       ∧ s'.conns[c]? = some cn' ∧ cn'.calls[j]? = some k' ∧ k'.plan = k.plan
       ∧ (callView cn' k').got = k.plan.map toOut := by
-  obtain ⟨ls, s', hall, hrun, hres, _⟩ := C13_shutdown_completes h hreq hfree
+  obtain ⟨ls, s', hall, hrun, hres, _⟩ := C13_shutdown_completes h hreq hfree hdone
   obtain ⟨cn', k', h1, h2, h3, h4, h5, h6, _, _⟩ :=
     run_keeps_call hall hrun (KeptIn.self hc hk hcan hpg)
   have hg' := good_run (good_reachable h) hrun
@@ -307,7 +311,7 @@ theorem C13_accepted_call_runs_to_completion {b a : Bool} {s : State} {c j : Nat
 example : ∃ s, Reachable true true false s ∧ s.resolved = true
     ∧ (connViews s).any (·.accepted) = true ∧ (callViews s).any (·.started) = true := by
   let ls : List Label :=
-    [.offer, .loopAccept 0, .hsDone 0, .issue 0 [[.hdr, .msg 0, .status 0]], .callStart 0 0,
+    [.offer, .loopAccept 0, .hsDone 0, .issue 0 [[.hdr, .msg 0, .status 0]] 0, .callStart 0 0,
      .sigFire, .loopSig, .afterLoop, .connSig 0, .final 0, .permit 0 0, .produce 0 0,
      .deliver 0 0, .deliver 0 0, .deliver 0 0, .connBreak 0, .connDropWatcher 0, .resolve]
   cases hrun : run (init true true false) ls with
@@ -326,7 +330,7 @@ example : ∃ s, Reachable true true false s ∧ s.resolved = true
 example : ∃ s, Reachable true true false s ∧ ShutdownRequested s ∧ Unblocked s
     ∧ s.resolved = false ∧ (callViews s).any (fun v => v.started && v.got != v.plan) = true := by
   refine ⟨_, reachable_run (ls := [.offer, .loopAccept 0, .hsDone 0,
-      .issue 0 [[.hdr], [.msg 0], [.status 0]], .callStart 0 0, .permit 0 0, .sigFire]) .init rfl,
+      .issue 0 [[.hdr], [.msg 0], [.status 0]] 0, .callStart 0 0, .permit 0 0, .sigFire]) .init rfl,
     ?_, ?_, ?_, ?_⟩
   · exact Or.inl rfl
   · exact unblocked_of_bool (by decide)
@@ -346,7 +350,7 @@ example : ∃ s s' cn k, Reachable true true false s ∧ step s (.connSig 0) = s
     ∧ s.conns[0]? = some cn ∧ cn.calls[0]? = some k ∧ k.started = true ∧ k.cancelled = false
     ∧ cn.peerGone = false := by
   refine ⟨_, _, _, _, reachable_run (ls := [.offer, .loopAccept 0, .hsDone 0,
-      .issue 0 [[.hdr], [.status 0]], .callStart 0 0, .sigFire, .loopSig, .afterLoop]) .init rfl,
+      .issue 0 [[.hdr], [.status 0]] 0, .callStart 0 0, .sigFire, .loopSig, .afterLoop]) .init rfl,
     rfl, rfl, rfl, rfl, rfl, rfl⟩
 
 -- … and those of `C13_accepted_call_runs_to_completion`: the signal fires mid-stream (headers and
@@ -355,7 +359,7 @@ example : ∃ s cn k, Reachable true true false s ∧ ShutdownRequested s ∧ s.
     ∧ s.conns[0]? = some cn ∧ cn.calls[0]? = some k ∧ k.started = true ∧ k.cancelled = false
     ∧ cn.peerGone = false ∧ k.recv = 2 ∧ k.todo.length = 2 := by
   refine ⟨_, _, _, reachable_run (ls := [.offer, .loopAccept 0, .hsDone 0,
-      .issue 0 [[.hdr], [.msg 0], [.msg 1], [.status 0]], .callStart 0 0, .permit 0 0,
+      .issue 0 [[.hdr], [.msg 0], [.msg 1], [.status 0]] 0, .callStart 0 0, .permit 0 0,
       .produce 0 0, .deliver 0 0, .permit 0 0, .produce 0 0, .deliver 0 0, .sigFire, .freeRun])
       .init rfl, Or.inl rfl, rfl, rfl, rfl, rfl, rfl, rfl, rfl, rfl⟩
 
